@@ -3,7 +3,13 @@ import time
 
 from contracts.integrate_rt import rt_integrate  # noqa: F401
 
-LEVEL = 'proof'
+LEVEL = 'other'
+TEXT = ('deductive proof of the per-step clauses (a range row lies exactly at the record distance and is the last multiple not '
+        'beyond the projectile, no multiple skipped under H-adv, one interpolation ratio, muzzle state first, loop left only '
+        'beyond range + min step, what trajectory()/fire() pass to the integrator: the requested horizontal range and step, '
+        'range/10 by default); the row COUNT over a whole card is assembled from them on paper and checked by a bounded '
+        'stand-in only, and two recorded findings (tail-wind last row, step > range) are violations of the statement on the '
+        'unchanged tree - hence "other", not "proof"')
 EXPLANATION = ('_TrajectoryDataFilter.should_record under contract for EVERY filter state and step (540 paths): a range row lies '
                'exactly at the record distance (interpolation identity), the record distance is the last multiple not beyond '
                'the projectile, no multiple is skipped when a step advances by at most the record step (hypothesis H-adv of the '
